@@ -43,7 +43,8 @@ fn site_key(ix: usize, op: &Op, a: &M, b: Option<&M>, out: &Out, exp: &Exp, layo
 
 /// Run and judge one case. `la`/`lb` select how the operands are brought into the backend
 /// (matrix layout or vector source).
-pub fn case(op: &Op, a: &M, la: usize, b: Option<(&M, usize)>) {
+/// Returns whether the operands are inside the operation's domain (the model gives values).
+pub fn case(op: &Op, a: &M, la: usize, b: Option<(&M, usize)>) -> bool {
     let bm = b.map(|x| x.0);
     let lb = b.map(|x| x.1).unwrap_or(0);
     let is_vec = (op.k as usize) >= (K::VBasic as usize);
@@ -52,7 +53,7 @@ pub fn case(op: &Op, a: &M, la: usize, b: Option<(&M, usize)>) {
         for ix in 0..3 {
             if !build_ok(ix, a, la) || !bm.map(|m| build_ok(ix, m, lb)).unwrap_or(true) {
                 mc::violation(format!("{}.build:{}", NAMES[ix], if la + lb > 0 { "transpose" } else { "zeros-set-get" }), format!("operand {} cannot be built / read back on {} ({})", a.show(), NAMES[ix], LAYOUTS[la]));
-                return;
+                return false;
             }
         }
     }
@@ -145,4 +146,5 @@ pub fn case(op: &Op, a: &M, la: usize, b: Option<(&M, usize)>) {
             "dense": show_out(&outs[0]), "ndarray": show_out(&outs[1]), "nalgebra": show_out(&outs[2]),
         })
     });
+    matches!(exp, Exp::Val(_))
 }
